@@ -6,8 +6,11 @@ import sys
 import time
 
 HERE = os.path.dirname(os.path.dirname(os.path.abspath(__file__)))
-EVID = os.path.join(HERE, 'evidence')
-REPLAYS = os.path.join(HERE, 'replays')
+# development aid (seeded-change campaigns): VERIF_OUT redirects evidence and replays so that runs against a modified
+# tree never overwrite the evidence of /repo itself
+_OUT = os.environ.get('VERIF_OUT') or HERE
+EVID = os.path.join(_OUT, 'evidence')
+REPLAYS = os.path.join(_OUT, 'replays')
 KNOWN = os.path.join(HERE, 'known_findings.json')
 
 EXIT_OK, EXIT_VIOLATION, EXIT_HARNESS = 0, 1, 3
